@@ -8,7 +8,7 @@
    CrystalSetup::optimum_theta drive it (seeds, bounds, iteration limit, tolerance, early exit, final test, sign). *)
 From Coq Require Import Reals List Bool Floats.
 From SpdVerif Require Import Base.Rx Base.Vec3 Gen.Idler Gen.AutoCalc Model.Idler Model.NM1d Model.AutoCalc
-  Proofs.C03_base Proofs.C03_idler Proofs.C04_nm Proofs.C04_poling Proofs.C04_collinear Proofs.C04_all Proofs.C04_conv Proofs.C04_conv_poling Proofs.C04_sim Proofs.C04_float.
+  Proofs.C03_base Proofs.C03_idler Proofs.C04_nm Proofs.C04_poling Proofs.C04_collinear Proofs.C04_all Proofs.C04_conv Proofs.C04_conv_poling Proofs.C04_sim Proofs.C04_float Proofs.C04_mono.
 Local Open Scope R_scope.
 
 (* a strict weak order on the finite costs (binary64 without NaN, Q and R are) *)
@@ -226,6 +226,46 @@ Example C04_float_refinement_nonvacuous :
   run_ok PrimFloat.ltb float_ops real_ops f G (sd_small_float 0%float) fR fR okf 1 (init PrimFloat.ltb f 1%float 2%float).
 Proof. exact float_refinement_nonvacuous. Qed.
 
+(* ------------------------------------------------------------------------------------------------------------------------
+   The monotonicity hypothesis, ESTABLISHED for a non-collinear signal when the idler's index does not depend on its direction
+   (ordinary idler in a uniaxial crystal): closed form of the closure's mismatch with the optimum idler recomputed per poling,
+   dkz(pp) = K phi(w(pp)), phi(t) = t (1 - kap / sqrt(t^2 + u^2)), and strict monotonicity in the period for either sign —
+   on every bracket whose smallest longitudinal closing component t1 > 0 satisfies kap u^2 < (t1^2 + u^2)^(3/2). *)
+Theorem C04_dkz_closed_form : forall index pm spol ppol phis ths ls lp ws wp nio,
+  0 < lp -> lp < ls -> 0 <= ths < PI / 2 -> (forall l d, index l d (idler_polarization pm) = nio l) ->
+  forall pp, pp_defined pp -> 0 < w_z index spol ppol phis ths ls lp ws wp pp ->
+  dkz_of index pm false (beam_new spol phis ths ls ws) (pump_new ppol lp wp) pp =
+  Kq ls * phi_mis (kappa spol ppol phis ths ls lp ws wp nio / Kq ls) (u_t index spol phis ths ls ws) (w_z index spol ppol phis ths ls lp ws wp pp).
+Proof. exact dkz_closed. Qed.
+
+Theorem C04_phi_increasing : forall kap u t1 t2, 0 <= kap -> 0 < t1 -> t1 < t2 ->
+  kap * u ^ 2 < R_sqrt.sqrt (t1 ^ 2 + u ^ 2) ^ 3 -> phi_mis kap u t1 < phi_mis kap u t2.
+Proof. exact phi_mis_increasing. Qed.
+
+Theorem C04_dkz_monotone_positive : forall index pm spol ppol phis ths ls lp ws wp nio,
+  0 < lp -> lp < ls -> 0 <= ths < PI / 2 -> (forall l d, index l d (idler_polarization pm) = nio l) ->
+  forall p1 p2, 0 < p1 -> p1 < p2 -> 0 <= kappa spol ppol phis ths ls lp ws wp nio ->
+  0 < w_z index spol ppol phis ths ls lp ws wp (PPOn p1 true) ->
+  kappa spol ppol phis ths ls lp ws wp nio / Kq ls * u_t index spol phis ths ls ws ^ 2 <
+    R_sqrt.sqrt (w_z index spol ppol phis ths ls lp ws wp (PPOn p1 true) ^ 2 + u_t index spol phis ths ls ws ^ 2) ^ 3 ->
+  dkz_of index pm false (beam_new spol phis ths ls ws) (pump_new ppol lp wp) (PPOn p1 true) <
+  dkz_of index pm false (beam_new spol phis ths ls ws) (pump_new ppol lp wp) (PPOn p2 true).
+Proof. exact dkz_monotone_positive. Qed.
+
+Theorem C04_dkz_monotone_negative : forall index pm spol ppol phis ths ls lp ws wp nio,
+  0 < lp -> lp < ls -> 0 <= ths < PI / 2 -> (forall l d, index l d (idler_polarization pm) = nio l) ->
+  forall p1 p2, 0 < p1 -> p1 < p2 -> 0 <= kappa spol ppol phis ths ls lp ws wp nio ->
+  0 < w_z index spol ppol phis ths ls lp ws wp (PPOn p2 false) ->
+  kappa spol ppol phis ths ls lp ws wp nio / Kq ls * u_t index spol phis ths ls ws ^ 2 <
+    R_sqrt.sqrt (w_z index spol ppol phis ths ls lp ws wp (PPOn p2 false) ^ 2 + u_t index spol phis ths ls ws ^ 2) ^ 3 ->
+  dkz_of index pm false (beam_new spol phis ths ls ws) (pump_new ppol lp wp) (PPOn p2 false) <
+  dkz_of index pm false (beam_new spol phis ths ls ws) (pump_new ppol lp wp) (PPOn p1 false).
+Proof. exact dkz_monotone_negative. Qed.
+
+(* the hypotheses are satisfiable: kap = 1, u = 1/10, t1 = 1 *)
+Example C04_mono_nonvacuous : (0 : R) <= 1 /\ (0 : R) < 1 /\ 1 * (1 / 10) ^ 2 < R_sqrt.sqrt (1 ^ 2 + (1 / 10) ^ 2) ^ 3.
+Proof. exact mono_nonvacuous. Qed.
+
 (* non-vacuity *)
 Example C04_nonvacuous_order : strict_weak_order Rltb.
 Proof. exact (conj Rltb_irrefl (conj Rltb_trans Rltb_cotrans)). Qed.
@@ -260,3 +300,7 @@ Print Assumptions C04_poling_search_converges.
 Print Assumptions C04_nm_simulation.
 Print Assumptions C04_float_refines_real.
 Print Assumptions C04_float_ops_exact.
+Print Assumptions C04_dkz_closed_form.
+Print Assumptions C04_phi_increasing.
+Print Assumptions C04_dkz_monotone_positive.
+Print Assumptions C04_dkz_monotone_negative.
